@@ -75,6 +75,19 @@ def gpidxFieldWith (val : Layout → Nat → Int) (L : Layout) (k n : Nat) : Int
 def gpidxField : Layout → Nat → Nat → Int := gpidxFieldWith gpidxOf
 def gpidxFieldPinned : Layout → Nat → Nat → Int := gpidxFieldWith gpidxOfPinned
 
+/-- number of fixed parameters declared before `g` (index into `fixed_param_values`) -/
+def fixedRank (L : Layout) (g : Nat) : Nat :=
+  ((List.range g).filter (fun h => h < L.length && fixedAt L h)).length
+
+/-- `recarray['<n>'][k]`: the value column of `create_src_params_recarray`
+(`gflp_values[src_gp_mask[gflp_mask]]` for floating, `fixed_param_values[src_gp_mask[gfxp_mask]]` for fixed
+parameters, last write wins); `none` = the initial NaN of an unmapped local parameter or an index
+outside the given value arrays -/
+def localValue {F : Type} (L : Layout) (θ fx : List F) (k n : Nat) : Option F :=
+  match (writers L k n).getLast? with
+  | none => none
+  | some g => if fixedAt L g then fx[fixedRank L g]? else θ[floatRank L g]?
+
 /-- the whole `K × nNames` table -/
 def gpTable (field : Layout → Nat → Nat → Int) (L : Layout) (K nNames : Nat) : List (List Int) :=
   (List.range K).map (fun k => (List.range nNames).map (fun n => field L k n))
